@@ -25,12 +25,16 @@ from . import sessions as sl
 from . import c03, c16
 
 ID = "C18"
-RULE = ("scenario = 1-4 sessions drawn from 12 session kinds (API pipelines and real CLI "
-        "commands) over private files, a seeded schedule (random / round-robin / bursty / "
-        "sequential = history), faults K1/K4/K5/K6/K7/K9 and the hash-seed pair K3; half of "
-        "the scenarios instead run the additivity / permutation experiment on treebanks A, B. "
-        "Distinct = distinct (mode, session kinds with formats and options, fault kinds, "
-        "schedule style). Non-trivial = >= 2 sessions, or a fired fault, or additivity mode.")
+RULE = ("five modes drawn per scenario: sessions (45 %: 1-4 sessions of 13 kinds - API pipelines and "
+        "real CLI commands of all four subcommands, terminal-file edits, PTB trace deletion, "
+        "deliberately failing calls - over private files under a seeded schedule random / "
+        "round-robin / bursty / sequential = history, with faults K1/K4/K5/K6 read+write/K7/K9 "
+        "and the hash-seed pair K3), additivity+permutation on treebanks A, B (35 %, a third "
+        "with the second file damaged and concatenated at byte level), reread (10 %: source file "
+        "rewritten between two reads), directory (10 %: one command over 2-4 files vs each file "
+        "alone). Distinct = distinct (mode, session kinds with formats and options, fault kinds, "
+        "schedule style). Non-trivial = >= 2 sessions, or a fired fault, or one of the other "
+        "modes.")
 ASSUMPTIONS = [
     "an observation is ok(value) or raised(exception type); messages, node ids and temp-file "
     "names are not observations",
